@@ -446,6 +446,12 @@ def family(name, rng, sid):
         for c in range(len(sc["clients"])):
             sc["clients"][c][:] = [o for o in sc["clients"][c] if not (o.get("b") == big["b"] and o["op"] in ("incr", "setcur", "settotal", "trigger", "abort", "barwait"))]
         w = next(i for i, o in enumerate(prog) if o["op"] == "wait")
+        if rng.random() < 0.4 and not any(o.get("after") == big["b"] for o in adds):
+            # the tall bar finishes first and is removed: the bars that were clipped in every frame so far come into view
+            # and are drawn like any other bar from then on (what was rendered for them while they were hidden is gone)
+            big["rm"] = True
+            big.pop("nopop", None)
+            w = 1 + max(i for i, o in enumerate(prog) if o["op"] == "add" and i < w)
         prog.insert(w, {"op": "incr", "b": big["b"], "n": 50})
         return sc
     if name == "none":
